@@ -106,8 +106,22 @@ type c19Step struct {
 	WO       []string          `json:"wo,omitempty"`
 	U        string            `json:"u,omitempty"`
 	O        string            `json:"o,omitempty"`
-	E        string            `json:"e,omitempty"` // step: error class of an injected failure (o == "fail")
-	V        int               `json:"v,omitempty"` // step, dr: events the informer cache lags behind for this call's cached read
+	E        string            `json:"e,omitempty"`  // step: error class of an injected failure (o == "fail")
+	V        int               `json:"v,omitempty"`  // step, dr: events the informer cache lags behind for this call's cached read
+	Rq       *c19Req           `json:"rq,omitempty"` // dr: shape of the admission request
+}
+
+// c19Req: how the API server builds the admission request of a delete (the verdict must depend
+// on the OBJECT - oldObject - and the delete options' propagation policy only).
+type c19Req struct {
+	Coll  bool   `json:"coll,omitempty"`  // deletecollection: one call per object, oldObject set, request.name EMPTY
+	NS    string `json:"ns,omitempty"`    // request.namespace
+	RKV   string `json:"rkv,omitempty"`   // version of request.requestKind / requestResource (the version the client used; request.kind is the version the object was converted to)
+	Dry   bool   `json:"dry,omitempty"`   // dryRun: admission is consulted, nothing is deleted
+	Sub   string `json:"sub,omitempty"`   // request.subResource
+	Op    string `json:"op,omitempty"`    // operation other than DELETE (CREATE UPDATE CONNECT): the handler refuses to judge
+	Grace int    `json:"grace,omitempty"` // options.gracePeriodSeconds = grace-1 (0 = unset)
+	Pre   bool   `json:"pre,omitempty"`   // options.preconditions.uid = the object's uid
 }
 
 type c19Scn struct {
@@ -377,6 +391,7 @@ type c19Sys struct {
 
 	// current delete request (consulted by the admission hook)
 	reqAV, reqPolicy string
+	req              *c19Req
 	hookInvoked      bool
 	hookCode         int32
 	hookAllowed      bool
@@ -466,16 +481,53 @@ func (s *c19Sys) admit(verb string, cur *unstructured.Unstructured) error {
 		p := metav1.DeletionPropagation(s.reqPolicy)
 		opts.PropagationPolicy = &p
 	}
+	rq := s.req
+	if rq == nil {
+		rq = &c19Req{}
+	}
+	opts.TypeMeta = metav1.TypeMeta{Kind: "DeleteOptions", APIVersion: "meta.k8s.io/v1"}
+	if rq.Grace > 0 {
+		g := int64(rq.Grace - 1)
+		opts.GracePeriodSeconds = &g
+	}
+	if rq.Pre {
+		uid := cur.GetUID()
+		opts.Preconditions = &metav1.Preconditions{UID: &uid}
+	}
+	if rq.Dry {
+		opts.DryRun = []string{metav1.DryRunAll}
+	}
 	optsRaw, _ := json.Marshal(opts)
 	gvk := old.GroupVersionKind()
+	// the request as kube-apiserver builds it: request.kind / oldObject in the version the object
+	// was converted to for this webhook, requestKind / requestResource in the version of the
+	// client's request, request.name empty for a collection delete
+	rkv := gvk.Version
+	if rq.RKV != "" {
+		rkv = rq.RKV
+	}
+	plural := strings.ToLower(gvk.Kind) + "s"
+	dry := rq.Dry
 	req := admission.Request{AdmissionRequest: admissionv1.AdmissionRequest{
-		UID:       "req",
-		Kind:      metav1.GroupVersionKind{Group: gvk.Group, Version: gvk.Version, Kind: gvk.Kind},
-		Name:      old.GetName(),
-		Operation: admissionv1.Delete,
-		OldObject: runtime.RawExtension{Raw: raw},
-		Options:   runtime.RawExtension{Raw: optsRaw},
+		UID:             "req",
+		Kind:            metav1.GroupVersionKind{Group: gvk.Group, Version: gvk.Version, Kind: gvk.Kind},
+		Resource:        metav1.GroupVersionResource{Group: gvk.Group, Version: gvk.Version, Resource: plural},
+		RequestKind:     &metav1.GroupVersionKind{Group: gvk.Group, Version: rkv, Kind: gvk.Kind},
+		RequestResource: &metav1.GroupVersionResource{Group: gvk.Group, Version: rkv, Resource: plural},
+		SubResource:     rq.Sub,
+		Name:            old.GetName(),
+		Namespace:       rq.NS,
+		Operation:       admissionv1.Delete,
+		DryRun:          &dry,
+		OldObject:       runtime.RawExtension{Raw: raw},
+		Options:         runtime.RawExtension{Raw: optsRaw},
 	}}
+	if rq.Coll {
+		req.Name = ""
+	}
+	if rq.Op != "" {
+		req.Operation = admissionv1.Operation(rq.Op)
+	}
 	// the registered *admission.Webhook recovers a panic of the handler and answers 500
 	var resp admission.Response
 	if p := Guard(func() { resp = s.wire.handler.Handle(context.Background(), req) }); p != "" {
@@ -838,13 +890,13 @@ func c19HookOutcome(w string) (Outcome, string) {
 	return Fail, w
 }
 
-func (s *c19Sys) deleteRes(av, kind, name, policy string, wo []string, lag int, gcReq bool) string {
+func (s *c19Sys) deleteRes(av, kind, name, policy string, wo []string, lag int, rq *c19Req, gcReq bool) string {
 	o := &unstructured.Unstructured{}
 	o.SetAPIVersion(av)
 	o.SetKind(kind)
 	o.SetName(name)
 	before := s.snapshot()
-	s.reqAV, s.reqPolicy = av, policy
+	s.reqAV, s.reqPolicy, s.req = av, policy, rq
 	s.hookInvoked, s.hookCode, s.hookAllowed = false, 0, false
 	s.hookRets, s.hookServed, s.hookLive, s.hookLagging = nil, nil, nil, false
 	s.hookCall = c19Call{O: "ok", V: lag}
@@ -864,9 +916,14 @@ func (s *c19Sys) deleteRes(av, kind, name, policy string, wo []string, lag int, 
 		s.hookCall = c19Call{O: oc.String(), E: cls, V: lag}
 		return oc
 	}
-	err := s.st.Delete(context.Background(), o)
+	var dopts []client.DeleteOption
+	if rq != nil && rq.Dry {
+		dopts = append(dopts, client.DryRunAll)
+	}
+	err := s.st.Delete(context.Background(), o, dopts...)
 	s.st.Plan = nil
-	faulty := false
+	// faulty: the webhook could not judge (a failed call of its own, or an operation it refuses)
+	faulty := rq != nil && rq.Op != "" && rq.Op != "DELETE"
 	for _, w := range wo {
 		if w != "ok" && w != "" {
 			faulty = true
@@ -889,7 +946,7 @@ func (s *c19Sys) deleteRes(av, kind, name, policy string, wo []string, lag int, 
 	if s.hookInvoked {
 		res += "+hook"
 	}
-	s.afterDelete(before, c19Group(av), kind, name, policy, res, faulty, gcReq)
+	s.afterDelete(before, c19Group(av), kind, name, policy, res, faulty, rq != nil && rq.Dry)
 	return res
 }
 
@@ -924,7 +981,7 @@ func (s *c19Sys) gc(st c19Step) string {
 		}
 		return "gc:" + c19ErrStr(err)
 	}
-	return "gc:" + s.deleteRes(o.GetAPIVersion(), st.Kind, st.Name, "Background", nil, 0, true)
+	return "gc:" + s.deleteRes(o.GetAPIVersion(), st.Kind, st.Name, "Background", nil, 0, nil, true)
 }
 
 // exec runs one schedule entry; every entry that is not made of reconcile events (start, step,
@@ -1016,7 +1073,7 @@ func (s *c19Sys) exec0(st c19Step) string {
 		}
 		return c19ErrStr(err)
 	case "dr":
-		return s.deleteRes(st.AV, st.Kind, st.Name, st.Policy, st.WO, st.V, false)
+		return s.deleteRes(st.AV, st.Kind, st.Name, st.Policy, st.WO, st.V, st.Rq, false)
 	case "gc":
 		return s.gc(st)
 	case "xa":
@@ -1377,7 +1434,7 @@ func (s *c19Sys) afterCall(t *c19Thread, c CallInfo, before *c19Snap) {
 }
 
 // afterDelete evaluates the admission part of the property for one delete request.
-func (s *c19Sys) afterDelete(before *c19Snap, group, kind, name, policy, res string, faulty, gcReq bool) {
+func (s *c19Sys) afterDelete(before *c19Snap, group, kind, name, policy, res string, faulty, dry bool) {
 	k := c19ResKey(group, kind, name)
 	rb, ok := before.Res[k]
 	if !ok {
@@ -1448,12 +1505,13 @@ func (s *c19Sys) afterDelete(before *c19Snap, group, kind, name, policy, res str
 			}
 			s.mon("C19:used-deletable-while-user-exists", fmt.Sprintf("delete of %s was allowed although its user %s still exists: Usage %s, reconciled successfully since that user was created, is gone or terminating without anybody having asked for its deletion", k, c.usingKey, c.usage))
 		}
-		delete(s.stale, k)
-		if _, still := after.Res[k]; still {
-			s.mon("C19:allowed-delete-did-not-delete", "delete of "+k+" was allowed but the object is still there")
+		if !dry {
+			delete(s.stale, k)
+		}
+		if _, still := after.Res[k]; still != dry {
+			s.mon("C19:allowed-delete-did-not-delete", "delete of "+k+" was allowed but the object is still there (or a dry-run delete removed it)")
 		}
 	}
-	_ = gcReq
 }
 
 // ---------------------------------------------------------------- running a scenario
